@@ -163,7 +163,14 @@ class StreamStatistics:
                 timestamp_diff = (packet.timestamp - self._last_timestamp) % (1 << 32)
                 if timestamp_diff >= (1 << 31):
                     timestamp_diff -= 1 << 32
-                diff = abs((arrival - self._last_arrival) - timestamp_diff)
+                # so does the difference of transit times (RFC 3550 A.8), this
+                # keeps the jitter within 32 bits when the wall clock is stepped
+                transit_diff = ((arrival - self._last_arrival) - timestamp_diff) % (
+                    1 << 32
+                )
+                if transit_diff >= (1 << 31):
+                    transit_diff -= 1 << 32
+                diff = abs(transit_diff)
                 self._jitter_q4 += diff - ((self._jitter_q4 + 8) >> 4)
 
             self._last_arrival = arrival
